@@ -163,6 +163,16 @@ def families(tier, seed):
         def run(sh=sh, a=(d1, d2, fml)):
             return harness.verify(bn.h_two_contexts(*a), sh, kind='context')
         out.append(dict(name=f'operator definitions are per context: {fml} with {d2!r} after {d1!r} elsewhere', run=run, label='per-shape'))
+    # bitfields wider than 10 bits
+    shw = Shape(sys=bn.WIDE_CONTEXT, name=f'wide {bn.WIDE_CONTEXT}')
+    for fml in bn.WIDE_FORMULAS:
+        prm = "'" in fml
+        def run(sh=shw, fml=fml, prm=prm):
+            return harness.verify(bn.h_formula(fml), sh, kind='automaton' if prm else 'context')
+        out.append(dict(name=f'add_expr [wide] {fml}', run=run, label='per-shape'))
+    for be in (None, 'autoref'):
+        out.append(dict(name=f'wide formulas on the real manager [{be or "default"}]',
+                        run=bn.real_manager_formulas('wide', be, primed=True, samples=200, decl=bn.WIDE_CONTEXT, formulas=bn.WIDE_FORMULAS), label='bounded'))
     # BOUNDED: the same formulas on the real dd managers (acceptance and meaning)
     for cname in bn.CONTEXTS:
         for be in (None, 'autoref'):
